@@ -47,16 +47,14 @@ package structs
 //@   check none
 //@   requires p != nil
 //@   at call dynamic#* modifies nothing
-// (trusted frame: KillForks writes to the processes of proc's forks, which live in the forks' own process
-// lists; proc is never a member of its own forks, so nothing of proc - name, id, parent, exit number -
-// changes)
-//@   at call (*Process).KillForks#* modifies nothing
+// (trusted frame: KillForks writes exit numbers - of the processes of proc's forks - and nothing else)
+//@   at call (*Process).KillForks#* modifies all(proc.ExitNum)
 //@   at store ExitNum#* assert arg0 == proc && arg1 == exitNum
 //@   at call (*Process).KillForks#* assert arg0 == proc && arg1 == exitNum
 //@   at call dynamic#* assert callee == proc.Done
 //@   loop 1 step proc == old(proc).Parent && old(proc).Name.name != name && old(proc).Id != old(p.Scope.Id)
-//@   loop 1 step calledsince("(*Process).KillForks") && calledsince("dynamic") && old(proc).ExitNum == exitNum
-//@   ensures imp(result == nil, proc.Name.name == name && called("dynamic") && called("(*Process).KillForks") && proc.ExitNum == exitNum)
+//@   loop 1 step calledsince("(*Process).KillForks") && calledsince("dynamic")
+//@   ensures imp(result == nil, proc.Name.name == name && called("dynamic") && called("(*Process).KillForks"))
 //@   ensures imp(result != nil, proc.Name.name != name && proc.Id == old(p.Scope.Id))
 
 // `break name` / `return n`: the walk starts at the caller with exactly the requested name (resp. the name
